@@ -107,6 +107,28 @@ class Check:
         return True
 
     # -- evidence ------------------------------------------------------------------
+    def _coverage_loss(self):
+        """what this run could not encode / decide although the pinned tree's run could (coverage_baseline.json,
+        written only by GSV_WRITE_BASELINE=1 runs on the clean tree).  Informational: the exit code is unchanged,
+        an undecided obligation is neither a pass nor a violation -- but a change that silently moves code out of
+        the encoder's reach should be seen."""
+        path = os.path.join(VERIF, "coverage_baseline.json")
+        cur = sorted({str(k) for k in self.not_encoded} | {str(x).split(": ")[0] for x in self.inconclusive})
+        try:
+            base = json.load(open(path))
+        except (OSError, ValueError):
+            base = {}
+        if os.environ.get("GSV_WRITE_BASELINE") == "1":
+            base.setdefault(self.pid, {})[self.tier] = cur
+            with open(path, "w") as fh:
+                json.dump(base, fh, indent=0, sort_keys=True, ensure_ascii=False)
+            return []
+        known = base.get(self.pid, {}).get(self.tier)
+        if known is None:
+            return []
+        known = set(known)
+        return [k + (f" ({self.not_encoded[k]})" if k in self.not_encoded else "") for k in cur if k not in known]
+
     def finish(self):
         wall = time.time() - self.t0
         cov = {
@@ -130,6 +152,7 @@ class Check:
             "solver": f"z3 {z3.get_version_string()}",
         }
         cov.update(self.extra)
+        cov["coverage_loss"] = self._coverage_loss()
         ev = {
             "property_id": self.pid,
             "tier": self.tier,
@@ -149,6 +172,8 @@ class Check:
               f"known={len(self.known_hits)}")
         if self.inconclusive:
             print("  inconclusive:", ", ".join(self.inconclusive[:10]))
+        for what in cov["coverage_loss"][:20]:
+            print(f"COVERAGE-LOSS property={self.pid} no longer decided (was decided on the pinned tree): {what}")
         if self.violations:
             return EXIT_VIOLATION
         if SPURIOUS:
